@@ -108,6 +108,12 @@ func (bbs *BBSG2Pub) VerifyProof(messagesBytes [][]byte, proof, nonce, pubKeyByt
 		return fmt.Errorf("parse signature proof: %w", err)
 	}
 
+	for _, revealedIdx := range payload.revealed {
+		if revealedIdx >= payload.messagesCount {
+			return errors.New("parse signature proof: revealed message index exceeds the messages count")
+		}
+	}
+
 	signatureProof, err := ParseSignatureProof(proof[payload.lenInBytes():])
 	if err != nil {
 		return fmt.Errorf("parse signature proof: %w", err)
